@@ -2,12 +2,12 @@
 # tools/confirm_seed.sh <ID> [worktree]  - confirm a sub-agent's mutation in its scratch worktree and
 # store it under /verif/seeded/<ID>/ (patch.diff, demo test, MUTATION.md, confirm.json)
 ID="$1"; WT="${2:-/tmp/wt-$ID}"
-OUT=/verif/seeded/$ID
+OUT=/verif/seeded/${3:-$ID}
 mkdir -p "$OUT"
 cd "$WT" || exit 2
 export CARGO_TARGET_DIR="$WT/target"
 git diff -- chess chess_base Cargo.toml > "$OUT/patch.diff"
-DEMO=$(ls chess/tests/demo_*.rs 2>/dev/null | head -1)
+DEMO=$(ls chess/tests/demo*.rs 2>/dev/null | head -1)
 [ -n "$DEMO" ] && cp "$DEMO" "$OUT/"
 [ -f MUTATION.md ] && cp MUTATION.md "$OUT/"
 DEMONAME=$(basename "$DEMO" .rs)
